@@ -12,38 +12,52 @@ O = "other"
 CHECKS = {
  "C01": (P, "Proved on the real code (tag C01): the comparison kernels of all four domains are sound in gamma for every comparison tree, operand order and constant; "
             "DataflowTransactionContext._get_asserted is sound through !, &&, || (loop invariants, recursion) against the abstract-domain interface; "
-            "is_value_matches_key / is_int_push_ins attribute reads to the right transaction. The engine fixpoint, DFS completeness and the detector closures are not yet "
-            "under contract: the end-to-end statement is decided by the bounded stand-in BS-PROG (real pipeline vs the independent interpreter spec/avm.py).",
-            "contract-based deductive verification (pyvc) + bounded BS-PROG for the end-to-end clause"),
+            "is_value_matches_key / is_int_push_ins attribute reads to the right transaction; the engine's equations (block / path level constraints, reach-in, live-in, the two merge "
+            "steps with frame and changed-flag, gtxn update) are pinned exactly in gamma; validated_in_block is exact against an uninterpreted checks_field and the nine checks_field "
+            "closures are exactly the danger predicates of the property text. Not proved: that the worklists reach a fixpoint of these equations and that the fixpoint is sound for "
+            "every run (meta-induction), DFS completeness of search_paths: decided on bounded inputs by the run-time engine contracts (fixpoint at every block) and BS-PROG "
+            "(real pipeline vs the independent interpreter spec/avm.py).",
+            "contract-based deductive verification (pyvc) + bounded run-time engine contracts + BS-PROG for the end-to-end clause"),
  "C02": (O, "No function-level proof yet (search_paths is a recursive closure over lists: DESIGN §6.7). Decided by the bounded stand-in only: every reported path of every detector "
             "on the generated programs is re-validated against the AVM control rules computed from the independent parser (entry start, legal transfers, matched call/return, "
             "terminating last block, no revisit inside an activation, no duplicates).", "bounded native contract check (BS-PROG); no obligations discharged"),
  "C03": (P, "Proved on the real code: exactness clauses of the comparison kernels (fee: exact implied bound for six operators in both operand orders; group size/index: exact true/false sets; "
-            "transaction kinds: a direct check by name or number in either order removes the kind it excludes; addresses: compared branch is never 'any address'); exact lattice operations. "
-            "Least-fixpoint / merge-over-paths (L-MOP) is not machine-checked.", "contract-based deductive verification (pyvc)"),
+            "transaction kinds: a direct check by name or number in either order removes the kind it excludes; addresses: compared branch is never 'any address'); exact lattice operations; "
+            "the engine equations are exact in gamma (reach-in, live-in, merge, gtxn update), a block with err / return 0 keeps only the null set, an exit other than bz/bnz leaves "
+            "every edge unconstrained; the checks_field thresholds are exact. Least-fixpoint / merge-over-paths (L-MOP) is not machine-checked; the edge values of bz/bnz are compared "
+            "with a reference by the run-time engine contracts (bounded).", "contract-based deductive verification (pyvc) + bounded run-time engine contracts"),
  "C04": (O, "Bounded/exhaustive stand-in only: all control skeletons of <= 5 items (every label assignment) and 3000 generated programs: mirror, closure, partition, single entry/exit, "
             "bz/bnz successor order, idx, and the walk property against spec/avm.py runs. The four passes are not under contract (heap-mutating loops).",
             "exhaustive small-scope native check against an independent CFG oracle"),
  "C05": (O, "Bounded stand-in only: subroutine tables, call sites, return points, call-graph export recomputed independently on call-structure programs.",
             "bounded native check against an independent oracle"),
  "C06": (P, "Proved: _get_asserted_int_values (bag semantics, frame: the universal list is not modified), _get_asserted_groupsizes / _groupindices sound and exact in both operand orders "
-            "(finding D1 carved out), _get_asserted generic. Per-block statement: BS-PROG (bounded).", "contract-based deductive verification (pyvc) + BS-PROG"),
+            "(finding D1 carved out), _get_asserted generic, the engine equations (see C01) incl. checks_group_size. Per-block statement over whole runs: run-time engine contracts "
+            "(fixpoint) and BS-PROG (bounded).", "contract-based deductive verification (pyvc) + run-time engine contracts + BS-PROG"),
  "C07": (P, "Proved: _get_asserted_transaction_types admits every approvable pay/axfer/update/delete kind outside finding D5, precision on direct checks, the two enum maps total and exact. "
-            "Per-block statement: BS-PROG (bounded).", "contract-based deductive verification (pyvc) + BS-PROG"),
+            "The engine equations are pinned in gamma (see C01). Per-block statement over whole runs: run-time engine contracts and BS-PROG (bounded).", "contract-based deductive verification (pyvc) + run-time engine contracts + BS-PROG"),
  "C08": (P, "Proved: AddrFields._union/_intersection exact in gamma and marker-invariant preserving (and not mutating their arguments), _get_asserted_address, _get_asserted_txn_gtxn sound for "
-            "constant comparands in both orders (finding D19 carved out). Per-block statement: BS-PROG (bounded).", "contract-based deductive verification (pyvc) + BS-PROG"),
+            "constant comparands in both orders (finding D19 carved out); engine equations (see C01). Per-block statement over whole runs: run-time engine contracts and BS-PROG (bounded).",
+            "contract-based deductive verification (pyvc) + run-time engine contracts + BS-PROG"),
  "C09": (P, "Proved: FeeField lattice exact; _get_asserted_max_value sound and tight; _get_asserted_fee sound and exact in both operand orders incl. the mirrored operator (fix 2b2fb7f); "
-            "finding D18 carved out. Per-block statement: BS-PROG (bounded).", "contract-based deductive verification (pyvc) + BS-PROG"),
+            "finding D18 carved out; the fee closure's threshold (272000) and the engine equations (see C01). Per-block statement over whole runs: run-time engine contracts and BS-PROG (bounded).",
+            "contract-based deductive verification (pyvc) + run-time engine contracts + BS-PROG"),
  "C10": (P, "Proved: is_value_matches_key with get_index_and_field and _get_index inlined, exact against an independent syntactic definition of 'read of the key's field' and sound against "
-            "the AVM axioms; key constructors/recognisers/inverter decided exhaustively over the finite key space (complete). Per-block statement: BS-PROG (bounded).",
-            "contract-based deductive verification (pyvc) + exhaustive key space + BS-PROG"),
+            "the AVM axioms; key constructors/recognisers/inverter decided exhaustively over the finite key space (complete); _update_gtxn_constraints (cell of gtxn i k = old cell n cell of k "
+            "if i is a possible own index, else null; frame), gtxn_context, engine equations (see C01). Per-block statement over whole runs: run-time engine contracts and BS-PROG (bounded).",
+            "contract-based deductive verification (pyvc) + exhaustive key space + run-time engine contracts + BS-PROG"),
  "C11": (P, "Proved for ALL immediates: stack_pop_size / stack_push_size of every instruction class that defines them equal the AVM table (finding D14 carved out); inherited defaults compared "
-            "exhaustively; _flatten_ast and compute_equations proved (recursion, loop invariant). Stack.pop_n_values / construct_stack_ast are not yet under contract.",
+            "exhaustively; the `replace` pseudo-op (2 operands with an immediate, 0 included; 3 without); _flatten_ast and compute_equations proved (recursion, loop invariant). "
+            "Stack.pop_n_values / construct_stack_ast are not under contract: bounded stackcheck.",
             "contract-based deductive verification (pyvc): table obligations"),
  "C12": (O, "Bounded stand-in only: construct_function on generated programs x dispatch prefixes (isomorphism for [B0], error blocks, contract graph unchanged, runs).", "bounded native check"),
- "C13": (O, "Bounded stand-in only: generated group configurations vs brute-force group semantics with spec/avm.py.", "bounded native check against brute-force group semantics"),
+ "C13": (O, "validated_in_block is proved exact (own view, view at the given absolute index, or the view at every possible own index) against an uninterpreted checks_field; the group "
+            "drivers are not under contract: generated group configurations vs brute-force group semantics with spec/avm.py (bounded).",
+            "bounded native check against brute-force group semantics (+ one function under deductive contract)"),
  "C14": (P, "Proved: frame obligations of every function under contract (no write to objects existing at entry beyond `modifies`; syntactic in-place mutation of parameters is an obligation), "
-            "e.g. the universal-set lists and the arguments of the lattice operations. History / order / hash-seed runs: bounded stand-in.", "frame obligations (pyvc) + bounded relational runs"),
+            "e.g. the universal-set lists and the arguments of the lattice operations; the merge steps change only the cells of `block` and return a flag that is true iff some cell changed "
+            "(what makes the worklist result independent of the order). History / order / hash-seed runs and the fixpoint at every block: bounded stand-ins.",
+            "frame obligations (pyvc) + bounded relational runs + run-time engine contracts"),
  "C15": (P, "Proved congruences: is_int_push_ins reports the immediate as written and its AVM value (names denote assembler values), the enum maps map names and numbers alike, a direct kind "
             "check by name or number in either order gives the same exclusion. End-to-end invariance under the listed rewrites: bounded metamorphic stand-in.", "congruence clauses (pyvc) + metamorphic stand-in"),
  "C16": (O, "Bounded/exhaustive stand-in: every parser rule with all immediate spellings and decorations, independent byte-literal decoding, print-back round trip, unknown opcodes, line numbers, "
@@ -52,7 +66,9 @@ CHECKS = {
             "subcommand on generated and adversarial layouts.", "safety obligations (pyvc) + bounded CLI runs"),
  "C18": (O, "Bounded stand-in only: DOT files read back and compared with the internal graph; JSON count/success/short notation; --filter-paths.", "bounded read-back check"),
  "C19": (P, "Proved: _verify_version flags exactly the instructions/fields introduced after the declared version (every field kind) and mixed modes (loop invariant); cost of every class that defines "
-            "it equals the AVM table for versions 1-8 and both curves. version/mode/defaults: exhaustive over classes, cross-read against pyteal.", "contract-based deductive verification (pyvc) + exhaustive table check"),
+            "it equals the AVM table for versions 1-8 and both curves. version/mode/defaults: exhaustive over classes, cross-read against pyteal; program-level mode classification "
+            "(mode-only opcode anywhere in the text, reachable or not, and the application / logic-signature routing): every mode-specific mnemonic x 5 placements (bounded).",
+            "contract-based deductive verification (pyvc) + exhaustive table check + bounded mode classification"),
  "C20": (O, "Bounded stand-in only: match_regex vs an independent reachability computation on generated and hand-written graphs (finding D10 for the covered set).", "bounded native check"),
 }
 props = [json.loads(l) for l in open("/verif/properties.jsonl")]
